@@ -310,7 +310,7 @@ def check(ctx):
     from . import c03
     sub = type(ctx)(ctx.pid, ctx.an, ctx.tier)
     c03.check(sub)
-    ctx.obligations.extend(o for o in sub.obligations if o.rule.split(".", 1)[1].split(".")[0] == "keyfile")
+    ctx.obligations.extend(o for o in sub.obligations if o.rule.split(".", 1)[1].split(".")[0] in ("keyfile", "encrypt"))
 
     # ---------------------------------------------------------------- C02.4 to_tree contents
     g = an.cfg(to_tree)
